@@ -507,6 +507,7 @@ pub fn explore_unit(u: &Unit) -> UnitResult {
         }
     }
     while let Some(node) = stack.pop() {
+        tick();
         let out = execute(&fx, u.workers, u.quit_at, &node);
         account(&fx, u, &node, &out, &mut res, tag);
         if out.abort.is_none() {
@@ -649,6 +650,7 @@ pub fn model_unit(u: &Unit) -> UnitResult {
     }
     let pconf = proto::Params { workers: u.workers, quit_at: u.quit_at, retry_budget: 255, mutant: 0 };
     for sch in schedules.iter() {
+        tick();
         let node = sched::Node { prefix: sch.prefix.clone(), retry_at: sch.retry_at.clone(), retry_from: 0, preemptions: 0 };
         let out = execute(&fx, u.workers, u.quit_at, &node);
         res.model_paths_replayed += 1;
@@ -704,7 +706,6 @@ pub fn model_unit(u: &Unit) -> UnitResult {
 pub fn worker_main() -> ! {
     std::panic::set_hook(Box::new(|_| {}));
     // watchdog: an execution that makes no progress means the harness hangs
-    static PROGRESS: AtomicU64 = AtomicU64::new(0);
     std::thread::spawn(|| {
         let mut last = u64::MAX;
         loop {
@@ -728,7 +729,7 @@ pub fn worker_main() -> ! {
         let ticker = std::thread::spawn(|| {});
         let _ = ticker.join();
         let started = std::time::Instant::now();
-        let res = explore_unit_progress(&u, &PROGRESS);
+        let res = explore_unit_progress(&u);
         let unit_ms = started.elapsed().as_millis() as u64;
         let states: Vec<String> = res.states.iter().map(|h| format!("{:x}", h)).collect();
         let v = json!({
@@ -754,11 +755,10 @@ pub fn worker_main() -> ! {
     std::process::exit(0)
 }
 
-fn explore_unit_progress(u: &Unit, progress: &AtomicU64) -> UnitResult {
-    // explore_unit with a progress tick per unit is enough: units are small.
-    progress.fetch_add(1, Ordering::SeqCst);
+fn explore_unit_progress(u: &Unit) -> UnitResult {
+    tick();
     let r = if u.model { model_unit(u) } else { explore_unit(u) };
-    progress.fetch_add(1, Ordering::SeqCst);
+    tick();
     r
 }
 
@@ -804,12 +804,13 @@ pub fn plan(tier: Tier) -> Plan {
         }
     }
     // E4: the protocol model over all interleavings, per (tree, workers, quit index)
-    let model_cfg: Vec<(usize, usize, usize, usize)> = match tier {
-        // workers, Retry budget, largest tree (entries below the root), and the
-        // share 1/d of the model's covering schedules replayed on the
-        // implementation (the model exploration itself is always complete)
-        Tier::Quick => vec![(2, 1, 3, 1), (3, 1, 2, 10)],
-        Tier::Thorough => vec![(2, 2, 4, 1), (3, 1, 3, 1), (4, 1, 2, 4)],
+    let model_cfg: Vec<(usize, usize, usize, usize, usize)> = match tier {
+        // workers, Retry budget, largest tree (entries below a root), largest
+        // tree that is also taken with two roots, and the share 1/d of the
+        // model's covering schedules replayed on the implementation (the model
+        // exploration itself is always complete)
+        Tier::Quick => vec![(2, 1, 3, 2, 1), (3, 1, 2, 2, 10)],
+        Tier::Thorough => vec![(2, 2, 4, 3, 1), (3, 1, 3, 2, 2), (4, 1, 1, 0, 4)],
     };
     let mm = 4usize;
     for spec in specs.iter() {
@@ -817,8 +818,8 @@ pub fn plan(tier: Tier) -> Plan {
             break;
         }
         let entries = visit_count(spec) / spec.roots - 1;
-        for &(w, rb, maxn, d) in model_cfg.iter() {
-            if entries > maxn {
+        for &(w, rb, maxn, max2, d) in model_cfg.iter() {
+            if entries > maxn || (spec.roots == 2 && entries > max2) {
                 continue;
             }
             let mut quits: Vec<Option<usize>> = vec![None];
@@ -839,8 +840,8 @@ pub fn plan(tier: Tier) -> Plan {
         cfg.iter().map(|c| format!("({},{})", c.0, c.3)).collect::<Vec<_>>().join(" "),
     );
     let model_description = format!(
-        "protocol model (E4): for every tree with at most N entries, (workers, Steal::Retry budget, N, d) in {}, without a quit and with a visitor Quit at every visit index; 1/d of the model's covering schedules are executed on the implementation",
-        model_cfg.iter().map(|c| format!("({},{},{},{})", c.0, c.1, c.2, c.3)).collect::<Vec<_>>().join(" ")
+        "protocol model (E4): for every tree with at most N entries (also with two roots up to N2 entries), (workers, Steal::Retry budget, N, N2, d) in {}, without a quit and with a visitor Quit at every visit index; 1/d of the model's covering schedules are executed on the implementation",
+        model_cfg.iter().map(|c| format!("({},{},{},{},{})", c.0, c.1, c.2, c.3, c.4)).collect::<Vec<_>>().join(" ")
     );
     Plan { units, description, model_description }
 }
